@@ -79,7 +79,9 @@ def gen_events(rng, hostile, tmax, tshift=0):
     L = ["[Events]", "//Background and Video events"]
     if rng.random() < 0.7:
         L.append(rng.choice(['0,0,"bg.jpg",0,0', '0,0,"BG with space.png"', 'Video,0,"v.mp4"', '1,0,pic.png', '4,0,0,"sb.png"',
-                             'Sprite,Background,Centre,"SB\\bg.png",320,240', 'Sprite,Foreground,TopLeft,fg.png,0,0']))
+                             'Sprite,Background,Centre,"SB\\bg.png",320,240', 'Sprite,Foreground,TopLeft,fg.png,0,0',
+                             # a BACKGROUND whose name ends like a video: written and read back as a background (seed C04-q)
+                             '0,0,"intro.avi",0,0', 'Background,0,clip.MP4', '0,0,"x.mov"', '0,0,m.m4v,0,0']))
         if rng.random() < 0.3:
             L.append(rng.choice([' F,0,0,1000,0,1', '_M,0,0,1000,320,240,100,100', 'Sample,100,0,"s.wav",80', 'Animation,Fail,Centre,"anim.png",320,240,4,100']))
     for _ in range(rng.randint(0, 3)):
@@ -125,7 +127,7 @@ def gen_timing(rng, mode, hostile, tmax, chronological, tshift=0, integer_times=
             bl = rng.choice(["500", "333.33", "1000", "461.538461538462", "6", "60000", "300.5"])
         else:
             bl = rng.choice(["-100", "-50", "-200", "-133.333333333333", "-1000", "-10", "-66.6666666666667", "-125"])
-        fields = [repr(t) if isinstance(t, float) else str(t), bl, rng.choice(["4", "3", "7", "0"]), str(rng.randint(0, 3)), str(rng.choice([0, 0, 1, 2, 5, -1, -3])),
+        fields = [repr(t) if isinstance(t, float) else str(t), bl, rng.choice(["4", "3", "7", "0", "4", "3", "255", "256", "260", "512", "65536", "2147483647", "1"]), str(rng.randint(0, 3)), str(rng.choice([0, 0, 1, 2, 5, -1, -3])),
                   str(rng.choice([100, 60, 0, 5, 120])), "1" if timing else "0", str(rng.choice([0, 1, 8, 9, 0]))]
         k = 8 if rng.random() > 0.15 else rng.randint(2, 7)
         L.append(",".join(fields[:k]))
